@@ -242,6 +242,8 @@ def x3_check():
         "hidden_then_new": lambda: t >> pdt.select(t.a) >> pdt.mutate(z=t.b),
         "grouped": lambda: t >> pdt.group_by(t.a),
         "grouped2": lambda: t >> pdt.rename({"a": "k"}) >> pdt.group_by(t.a, t.c),
+        "grouped_not_in_column_order": lambda: t >> pdt.group_by(t.c, t.a),
+        "grouped_add": lambda: t >> pdt.group_by(t.b) >> pdt.group_by(t.a, add=True),
         "filter_arrange": lambda: t >> pdt.filter(t.a > 1) >> pdt.arrange(t.b.descending()),
     }
     for name, mk in pipes.items():
@@ -269,12 +271,18 @@ def x3_check():
                         r2 = (col >> pdt.ungroup() >> pdt.mutate(__p=c) >> pdt.export(pdt.Polars()))["__p"].to_list()
                         if r1 != r2:
                             bad.append(f"{name}: reference {c.name} reads other data after collect()")
-                    if src._cache.partition_by:
-                        a1 = (src >> pdt.summarize(__n=pdt.count()) >> pdt.export(pdt.Polars())).height
-                        a2 = (col >> pdt.summarize(__n=pdt.count()) >> pdt.export(pdt.Polars())).height
-                        if a1 != a2:
-                            bad.append(f"{name}: summarize after collect() yields {a2} groups, before {a1}")
-                else:
+                if keep and src._cache.partition_by:
+                    # the grouping (columns AND their order) survives collect(): the same summarize gives the same table
+                    # (stated for collect() with its default keep_col_refs=True; collect(keep_col_refs=False) returns a fresh ungrouped table)
+                    g1 = [src._cache.uuid_to_name[u] for u in src._cache.partition_by]
+                    g2 = [col._cache.uuid_to_name[u] for u in col._cache.partition_by]
+                    if g1 != g2:
+                        bad.append(f"{name} keep={keep}: grouping columns after collect() are {g2}, before {g1}")
+                    a1 = src >> pdt.summarize(__n=pdt.count()) >> pdt.export(pdt.Polars())
+                    a2 = col >> pdt.summarize(__n=pdt.count()) >> pdt.export(pdt.Polars())
+                    if a1.columns != a2.columns or sorted(map(str, a1.rows())) != sorted(map(str, a2.rows())):
+                        bad.append(f"{name} keep={keep}: summarize after collect() gives columns {a2.columns} / {a2.height} groups, before {a1.columns} / {a1.height}")
+                if not keep:
                     for c in src:
                         try:
                             col >> pdt.mutate(__p=c)
